@@ -16,7 +16,7 @@ case $variant in
 esac
 hs=$( (cat $VERIF/harness/*.c $VERIF/harness/*.h $VERIF/harness/*.S 2>/dev/null; cat $out/.hash) | sha1sum | cut -c1-16)
 if [ -f $out/.runner_hash ] && [ "$(cat $out/.runner_hash)" = "$hs" ] && [ -x $out/runner ]; then exit 0; fi
-srcs="runner.c runner_lib.c mvsched.c scenarios.c $(cd $VERIF/harness && ls p_*.c)"
+srcs="runner.c runner_lib.c mvsched.c ledger.c scenarios.c $(cd $VERIF/harness && ls p_*.c)"
 objs=""
 pids=""
 mkdir -p $out/h
